@@ -1847,7 +1847,9 @@ impl<'a, R: FileManager> FrontendCtx<'a, R> {
     ) -> Res<RuntypeName> {
         match type_name {
             TsEntityName::Ident(ident) => {
-                if let Some(builtin) = self.maybe_generate_ts_builtin(&ident.sym)? {
+                if visibility == Visibility::Local
+                    && let Some(builtin) = self.maybe_generate_ts_builtin(&ident.sym)?
+                {
                     Ok(RuntypeName::BuiltIn(builtin))
                 } else {
                     let addr: ModuleItemAddress =
@@ -2037,7 +2039,11 @@ impl<'a, R: FileManager> FrontendCtx<'a, R> {
         visibility: Visibility,
         anchor: &Anchor,
     ) -> Res<Runtype> {
-        if let TsEntityName::Ident(ident) = type_name {
+        // a name qualified by `import("…")` (visibility Export) is looked up among the exports of that file:
+        // it is never a type parameter in scope, and its type arguments belong to the referencing file
+        if visibility == Visibility::Local
+            && let TsEntityName::Ident(ident) = type_name
+        {
             for (n, t) in self.type_application_stack.iter().rev() {
                 if ident.sym == *n {
                     return Ok(t.clone());
@@ -2049,7 +2055,7 @@ impl<'a, R: FileManager> FrontendCtx<'a, R> {
             Some(its) => {
                 let mut args = vec![];
                 for ty in &its.params {
-                    let arg_ty = self.extract_type(ty, file.clone())?;
+                    let arg_ty = self.extract_type(ty, anchor.f.clone())?;
                     args.push(arg_ty);
                 }
                 args
@@ -2716,7 +2722,7 @@ impl<'a, R: FileManager> FrontendCtx<'a, R> {
                         Some(its) => {
                             let mut args = vec![];
                             for ty in &its.params {
-                                let arg_ty = self.extract_type(ty, resolved.clone())?;
+                                let arg_ty = self.extract_type(ty, file.clone())?;
                                 args.push(arg_ty);
                             }
                             args
